@@ -14,7 +14,7 @@
     html_roundtrip_partial xhtml_roundtrip_partial html_render_roundtrip_partial xhtml_render_roundtrip_partial
     html_roundtrip_tree_partial xhtml_roundtrip_tree_partial
     rawtext_endtag_not_recovered comment_dashes_not_recovered attr_ws_not_recovered_xhtml
-    markup_text_not_recovered raw_table_matches_reader normEol_id
+    markup_text_not_recovered raw_table_matches_reader normEol_id doctype_table_is_w3c
 -/
 import Genshi.Lemmas.ReaderXhtml
 import Genshi.Lemmas.ReaderTree
@@ -262,6 +262,34 @@ theorem doctype_option_wins (m : Method) (o : Opts) (d : DocTypeT) (fs : List FE
     | _ =>
       refine ⟨?_, doctypes_zero m o _ _ rfl⟩
       simp [docTypeInsert, serSpec, leadDecl, afterDecl, ctxBehindProlog, emit, ctxAfter]
+
+def str (s : String) : Str := s.toList
+
+/-- the W3C identifiers (specification side): HTML 4.01, XHTML 1.0 / 1.1, SVG 1.1, HTML5 -/
+def w3cDoctypes : List (Str × (Str × Option Str × Option Str)) :=
+  let h : Str := ['h','t','m','l']
+  let s : Str := ['s','v','g']
+  [(str "html", (h, some (str "-//W3C//DTD HTML 4.01//EN"), some (str "http://www.w3.org/TR/html4/strict.dtd"))),
+   (str "html-frameset", (h, some (str "-//W3C//DTD HTML 4.01 Frameset//EN"), some (str "http://www.w3.org/TR/html4/frameset.dtd"))),
+   (str "html-strict", (h, some (str "-//W3C//DTD HTML 4.01//EN"), some (str "http://www.w3.org/TR/html4/strict.dtd"))),
+   (str "html-transitional", (h, some (str "-//W3C//DTD HTML 4.01 Transitional//EN"), some (str "http://www.w3.org/TR/html4/loose.dtd"))),
+   (str "html5", (h, none, none)),
+   (str "svg", (s, some (str "-//W3C//DTD SVG 1.1//EN"), some (str "http://www.w3.org/Graphics/SVG/1.1/DTD/svg11.dtd"))),
+   (str "svg-basic", (s, some (str "-//W3C//DTD SVG Basic 1.1//EN"), some (str "http://www.w3.org/Graphics/SVG/1.1/DTD/svg11-basic.dtd"))),
+   (str "svg-full", (s, some (str "-//W3C//DTD SVG 1.1//EN"), some (str "http://www.w3.org/Graphics/SVG/1.1/DTD/svg11.dtd"))),
+   (str "svg-tiny", (s, some (str "-//W3C//DTD SVG Tiny 1.1//EN"), some (str "http://www.w3.org/Graphics/SVG/1.1/DTD/svg11-tiny.dtd"))),
+   (str "xhtml", (h, some (str "-//W3C//DTD XHTML 1.0 Strict//EN"), some (str "http://www.w3.org/TR/xhtml1/DTD/xhtml1-strict.dtd"))),
+   (str "xhtml-frameset", (h, some (str "-//W3C//DTD XHTML 1.0 Frameset//EN"), some (str "http://www.w3.org/TR/xhtml1/DTD/xhtml1-frameset.dtd"))),
+   (str "xhtml-strict", (h, some (str "-//W3C//DTD XHTML 1.0 Strict//EN"), some (str "http://www.w3.org/TR/xhtml1/DTD/xhtml1-strict.dtd"))),
+   (str "xhtml-transitional", (h, some (str "-//W3C//DTD XHTML 1.0 Transitional//EN"), some (str "http://www.w3.org/TR/xhtml1/DTD/xhtml1-transitional.dtd"))),
+   (str "xhtml11", (h, some (str "-//W3C//DTD XHTML 1.1//EN"), some (str "http://www.w3.org/TR/xhtml11/DTD/xhtml11.dtd")))]
+
+/-- `DocType.get` answers with the W3C identifiers for every name it knows, and lower-cases its argument -/
+theorem doctype_table_is_w3c :
+    Gen.OutputExtra.docTypes = w3cDoctypes ∧ Gen.OutputExtra.docTypeGetLowers = true := by
+  constructor
+  · simp only [w3cDoctypes, str]; decide +kernel
+  · decide
 
 /-- html never writes an XML declaration -/
 theorem decl_policy_html (o : Opts) (c : Ctx) (v : Str) (e : Option Str) (s : Int) :
